@@ -76,12 +76,79 @@ def _forwarding(fn: ast.FunctionDef) -> Optional[Tuple[str, Tuple[str, ...]]]:
     return c.split(".")[2], tuple(roles)
 
 
+def _forwarding_by_interpretation(repo: Repo, qual: str, fn: ast.FunctionDef, bound_args=(), bound_kwargs=None):
+    """The same classification for methods that do not have the one-line shape: the method is run in the interpreter
+    with an algebra whose every attribute is a recorder.  It is a forwarding method iff it performs exactly one
+    operator call / cache look-up on the algebra, with its own operands in some order, and returns what comes back
+    (for the recorder class: a new recorder built from that look-up)."""
+    ps = params(fn)
+    n_free = len(ps) - 1 - len(bound_args) - len([k for k in (bound_kwargs or {}) if k in ps])
+    if not ps or n_free not in (0, 1) or fn.args.vararg or fn.args.kwarg or fn.name in ("__new__", "__init__", "__getattr__", "__getitem__", "__setitem__"):
+        return None
+    if any(un(d) in ("property", "cached_property", "functools.cached_property", "classmethod", "staticmethod") for d in fn.decorator_list):
+        return None
+    from .absint import Interp, Obj, Unk, Raised
+    from .astx import NoValue
+    cname = qual.split(".")[-1]
+    events = []
+    result = Obj("token", {"fmt": "RESULT", "name": "RESULT"})
+
+    def opdict(name):
+        def call(*a, **k):
+            events.append(("call", name, a))
+            return result
+
+        def getitem(key):
+            events.append(("lookup", name, key))
+            return (Obj("token", {"fmt": "KEYS_OUT", "name": "KEYS_OUT"}), Obj("function", {"__name__": "FN", "fmt": "<FN>"}))
+        return Obj("OperatorDict", {"fmt": f"<{name}>"}, call=call, getitem=getitem)
+    alg = Obj("algebra", {"fmt": "ALG"}, {"__getattr__": opdict})
+    ks, ko = Obj("token", {"fmt": "KEYS_SELF", "name": "KEYS_SELF"}), Obj("token", {"fmt": "KEYS_OTHER", "name": "KEYS_OTHER"})
+    me = Obj(cname, {"algebra": alg, "_keys": ks, "expr": "SELF"})
+    other = Obj(cname, {"algebra": alg, "_keys": ko, "expr": "OTHER"})
+    it = Interp(repo, {}, {}, algebra=alg, max_steps=4000)
+    it.instance_classes[cname] = qual
+    try:
+        args = [me] + list(bound_args) + ([other] if n_free == 1 else [])
+        out = it.call_function(fn, args, dict(bound_kwargs or {}), {}, qual.split(".")[0])
+    except (NoValue, Raised, RecursionError):
+        return None
+    except Exception:
+        return None
+    if len(events) != 1:
+        return None
+    kind, name, payload = events[0]
+    if kind == "call":
+        if out is not result or not all(a is me or a is other for a in payload) or len(payload) != 1 + n_free:
+            return None
+        return name, tuple("self" if a is me else "other" for a in payload)
+    key = payload if isinstance(payload, tuple) else (payload,)
+    if not (isinstance(out, Obj) and out.kind == cname) or len(key) != 1 + n_free:
+        return None
+    roles = []
+    for k in key:
+        if k is ks:
+            roles.append("self")
+        elif k is ko:
+            roles.append("other")
+        else:
+            return None
+    return name, tuple(roles)
+
+
 def class_surface(repo: Repo, qual: str) -> Dict[str, Entry]:
+    cache = repo.__dict__.setdefault("_surface_cache", {})
+    if qual not in cache:
+        cache[qual] = _class_surface(repo, qual)
+    return dict(cache[qual])
+
+
+def _class_surface(repo: Repo, qual: str) -> Dict[str, Entry]:
     cls = repo.cls(qual)
     table: Dict[str, Entry] = {}
     for st in cls.body:
         if isinstance(st, (ast.FunctionDef, ast.AsyncFunctionDef)):
-            fw = _forwarding(st)
+            fw = _forwarding(st) or _forwarding_by_interpretation(repo, qual, st)
             if fw:
                 table[st.name] = Entry(st.name, "op", fw[0], fw[1], st, "def")
             else:
@@ -105,8 +172,17 @@ def class_surface(repo: Repo, qual: str) -> Dict[str, Entry]:
                     for n in names:
                         table[n] = Entry(n, "op", opn.value, order, st, "partialmethod")
                 else:
+                    fw = None
+                    tdef = next((x for x in cls.body if isinstance(x, ast.FunctionDef) and x.name == target), None)
+                    if tdef is not None:
+                        try:
+                            bargs = [ast.literal_eval(a) for a in v.args[1:]]
+                            bkw = {k.arg: ast.literal_eval(k.value) for k in v.keywords if k.arg}
+                            fw = _forwarding_by_interpretation(repo, qual, tdef, bargs, bkw)
+                        except (ValueError, SyntaxError):
+                            fw = None
                     for n in names:
-                        table[n] = Entry(n, "python", node=st, via="partialmethod?")
+                        table[n] = Entry(n, "op", fw[0], fw[1], st, "partialmethod") if fw else Entry(n, "python", node=st, via="partialmethod?")
     return table
 
 
